@@ -212,13 +212,14 @@ class Check:
 
     def finish(self):
         wall = time.time() - self.t0
-        os.makedirs(EVID, exist_ok=True)
+        evid = EVID if not self.pid.startswith("X") else os.path.join(os.path.dirname(EVID), "evidence_ext")   # extension checks: not a listed property
+        os.makedirs(evid, exist_ok=True)
         ev = {"property_id": self.pid, "tier": self.tier, "seed": seed(), "level": self.level,
               "coverage": self.cov, "assumptions": self.assumptions, "wall_s": round(wall, 2),
               "violations": len(self.violations)}
         if self.known_hits:
             ev["coverage"]["known_findings_reproduced"] = [k["key"] for k in self.known_hits]
-        with open(os.path.join(EVID, self.pid + ".json"), "w") as f:
+        with open(os.path.join(evid, self.pid + ".json"), "w") as f:
             json.dump(ev, f, indent=1)
         for k in self.known_hits:
             print("KNOWN-FINDING: property=%s %s" % (self.pid, k.get("what", k["key"])))
